@@ -27,7 +27,7 @@ std::string ParseExpression(const std::string& expression, const rslang::Syntax 
     result["astText"] = "";
     result["ast"] = JSON::array();
   }
-  return result.dump(JSON_IDENT);
+  return result.dump(JSON_IDENT, ' ', false, JSON::error_handler_t::replace);
 }
 
 const semantic::RSForm& RSFormJA::data() const noexcept {
@@ -53,7 +53,7 @@ RSFormJA RSFormJA::FromJSON(const std::string_view json) {
 }
 
 std::string RSFormJA::ToJSON() const {
-  return JSON(data()).dump(JSON_IDENT);
+  return JSON(data()).dump(JSON_IDENT, ' ', false, JSON::error_handler_t::replace);
 }
 
 std::string RSFormJA::ToMinimalJSON() const {
@@ -67,7 +67,7 @@ std::string RSFormJA::ToMinimalJSON() const {
   for (const auto uid : schema->Core().List()) {
     object["items"] += schema->Core().AsRecord(uid);
   }
-  return object.dump(JSON_IDENT);
+  return object.dump(JSON_IDENT, ' ', false, JSON::error_handler_t::replace);
 }
 
 std::string RSFormJA::CheckExpression(const std::string& text, const rslang::Syntax syntaxHint) const {
@@ -104,7 +104,7 @@ std::string RSFormJA::CheckExpression(const std::string& text, const rslang::Syn
     result["ast"] = JSON::array();
   }
 
-  return result.dump(JSON_IDENT);
+  return result.dump(JSON_IDENT, ' ', false, JSON::error_handler_t::replace);
 }
 
 std::string RSFormJA::CheckConstituenta(
@@ -151,7 +151,7 @@ std::string RSFormJA::CheckConstituenta(
     result["ast"] = JSON::array();
   }
 
-  return result.dump(JSON_IDENT);
+  return result.dump(JSON_IDENT, ' ', false, JSON::error_handler_t::replace);
 }
 
 } // namespace ccl::api
